@@ -69,7 +69,7 @@ class Harness:
     def __init__(self, stage):
         from harness import c47_e2e
         self.unit = unit_harness(stage)
-        self.e2e = c47_e2e.E2E(stage, per_key=3)
+        self.e2e = c47_e2e.E2E(stage, per_key=2)
         self.crashes = 0
 
     def e2e_one(self, line):
@@ -95,7 +95,7 @@ class Harness:
         if ei:
             # scenarios sharing an instance run in ascending base order so that the helper session is reused while ids grow
             ei.sort(key=lambda i: (lines[i].split(" ")[1:3], int(lines[i].split(" ")[3][2:]) if lines[i].split(" ")[3][2:].isdigit() else 0))
-            with ThreadPoolExecutor(max_workers=12) as ex:
+            with ThreadPoolExecutor(max_workers=8) as ex:
                 for i, o in zip(ei, ex.map(lambda i: self.e2e_one(lines[i]), ei)):
                     outs[i] = o
         return outs
@@ -195,11 +195,22 @@ def fragment(rng, stream, mode=None):
     return cut(stream, [rng.choice(pool) for _ in range(rng.range(1, 5))] + [rng.below(len(stream))])
 
 
-def scenario(rng, impl, kind, conc, wild=False):
-    """-> line. wild: also ids/separators/terminators a conforming helper would not write (in-process lines only)"""
+def scenario(rng, impl, kind, conc, wild=False, chain=None):
+    """-> line. wild: also ids/separators/terminators a conforming helper would not write (in-process lines only).
+    chain: [next free channel id]: end-to-end scenarios that do not need the first channels take increasing bases, so that one
+    helper session serves many of them (its channel counter only grows)"""
     if conc:
-        base = rng.choice([0, 0, 0, 0, 1, 8, 9, 10, 17, 98, 99, 100]) if impl == "E" else rng.choice([0, 0, 0, 1, 7, 8, 9, 10, 89, 98, 99, 100, 995, 999, 1000, 99999, 2147483640])
         n = rng.range(1, 14) if rng.chance(3, 4) else rng.range(10, 22 if impl == "U" else 16)
+        if impl == "E":
+            if rng.chance(1, 3) or chain is None:
+                base, n = 0, (n if rng.chance(1, 3) else rng.range(10, 14))       # channel 1 and channels 10.. wait together
+            else:
+                base = chain[0] + rng.choice([0, 0, 1, 2, 5])
+                if rng.chance(1, 5):
+                    base += (rng.choice([8, 9]) - base) % 10          # the ids cross a power-of-ten boundary sooner
+                chain[0] = base + n + 2 if base < 150 else 3
+        else:
+            base = rng.choice([0, 0, 0, 1, 7, 8, 9, 10, 89, 98, 99, 100, 995, 999, 1000, 99999, 2147483640])
         if impl == "U" and rng.chance(1, 8):
             conc = rng.choice([1, 2, 3, 5])      # requests wait in the client queue
     else:
@@ -254,6 +265,14 @@ def scenario(rng, impl, kind, conc, wild=False):
             stream = stream[:s] + rng.choice([b"OK\n", b"ERR x\n", b"12x y\n", b"\n", b" \n", b"+\n", b"\x00", b"7\x00 OK\n"]) + stream[s:]
         else: stream = stream + rng.choice([b"\x00", b"\n", b"5", b" "])
     reads = fragment(rng, stream)
+    if impl == "E" and not conc:
+        # end to end a non-concurrent helper is asked again only after its previous answer: every reply ends its read, so that
+        # the stub can wait for the next question before it goes on (otherwise the observation depends on request arrival times)
+        bounds, p = [], 0
+        for r in reads[:-1]:
+            p += len(r)
+            bounds.append(p)
+        reads = cut(stream, bounds + line_starts(stream))
     return mkline(impl, kind, conc, base, n, reads)
 
 
@@ -285,18 +304,19 @@ def cases(rng, tier):
             for q in range(p + 1, len(s), 3):
                 yield mkline("U", "rw", CONC, 0, 3, cut(s, [p, q]))
     # --- end-to-end lines
-    ne = 1500 if thorough else 170
+    ne = 1000 if thorough else 110
+    chain = [3]
     for i in range(ne):
         kind = "rw" if rng.chance(2, 3) else "acl"
         conc = CONC if rng.chance(5, 6) else 0
-        yield scenario(rng, "E", kind, conc)
+        yield scenario(rng, "E", kind, conc, chain=chain)
     for kind in ("rw", "acl"):
         for (base, n) in [(0, 12), (9, 3)]:
             s = fixed_stream(kind, base, n)
             inside, after, term = id_cut_points(s)
             pts = sorted(set(inside + after + term))
             if not thorough:
-                pts = [p for p in pts if rng.chance(1, 3)]
+                pts = [p for p in pts if rng.chance(1, 4)]
             for p in pts:
                 yield mkline("E", kind, CONC, base, n, cut(s, [p]))
 
@@ -369,6 +389,8 @@ def oracle(l, impl):
             if i is not None:
                 own.setdefault(i, []).append(body)
         retried = which == "U" and retry_codes(stream)
+        if retried and conc < n:
+            return None      # a BH answer re-dispatches the request on whatever channel number is next: not judged here
         for j, t in enumerate(toks):
             rid = base + j + 1
             if t == ".":
@@ -495,7 +517,14 @@ def classify(l, impl, why):
     return None
 
 
+SHRINK_BUDGET = [60]
+
+
 def shrink(l):
+    # bounded: most failing cases of a run are instances of one class; a replay need not be minimal
+    if SHRINK_BUDGET[0] <= 0:
+        return
+    SHRINK_BUDGET[0] -= 1
     try:
         which, kind, conc, base, n, reads = parse(l)
     except ValueError:
